@@ -1,6 +1,6 @@
 (* Entry points for the reference semantics. *)
 From Coq Require Import ZArith String List Bool PrimFloat.
-From Bardolph Require Import Run.Show Run.VmShow Gen.Codes Time.TimeSpec Time.TimePattern
+From Bardolph Require Import Run.Show Run.VmShow Gen.Codes Time.TimeSpec Time.TimeCore
   Lang.Value Lang.World Lang.Syntax Lang.Sem.
 Open Scope string_scope.
 Open Scope list_scope.
